@@ -277,7 +277,8 @@ Proof.
   - apply add_job_inv, C.
   - destruct C. constructor; unfold exec in *; prj; auto.
   - destruct C as [F P WF CF CP WP]. constructor; unfold clear_peer, exec in *; prj; auto.
-    intros q x. rewrite wl_get_adel. destruct (p =? q); [intros [] | apply WP].
+    intros q x. rewrite wl_get_set. destruct (p =? q) eqn:E; [|apply WP].
+    apply Z.eqb_eq in E. subst q. intros Hin. apply filter_In in Hin. apply WP, Hin.
   - destruct (take_job id (spawned s)) as [[j r]|] eqn:E; [|exact C].
     pose proof (take_spawned_prefin _ _ _ _ C E) as H.
     destruct (is_cancelled (set_spawned s r) j).
@@ -467,8 +468,9 @@ Proof.
         rewrite E2. prj. rewrite act_get_set. intros Hn. apply HP in Hn.
         destruct (jpeer j =? q) eqn:E; [apply Z.eqb_eq in E; subst; lia | exact Hn].
   - split; [exact HF | exact HP].
-  - split; [exact HF|]. intros q. unfold clear_peer. prj. rewrite wl_get_adel.
-    destruct (p =? q); [congruence | apply HP].
+  - split; [exact HF|]. intros q. unfold clear_peer. prj. rewrite wl_get_set.
+    destruct (p =? q) eqn:E; [|apply HP]. apply Z.eqb_eq in E. subst q. intros Hn. apply HP.
+    intros He. apply Hn. rewrite He. reflexivity.
   - destruct (take_job id (spawned s)) as [[j r]|] eqn:E; [|split; assumption].
     pose proof (take_spawned_prefin _ _ _ _ C E) as H.
     destruct (is_cancelled (set_spawned s r) j).
